@@ -120,6 +120,30 @@ theorem parse_write_keyword_lines (cv : Conv) (fmt : Bytes → Bytes) (flush spl
       obtain ⟨items, hs, hc, hl, ht⟩ := hrec j r hj
       exact ⟨items, by simpa using hs, parse_write_tokens cv fmt flush items r hc hl ht⟩)
 
+/-- line level, in front of any lines `rest` (also the end-of-file marker of an include). -/
+theorem parse_write_keyword_linesL (cv : Conv) (fmt : Bytes → Bytes) (flush split closing : Bool) (recog : Bytes → Bool)
+    (k0 : Kw) (hk0 : k0.records = []) (schemas : List (List Item)) (alt : Bool) (rs : List (List Vals)) (rest : List Bytes)
+    (hne : rs ≠ [] ∨ closing = true)
+    (hrun : RunOk k0 (rs.map fun r => emitToks fmt flush false 0 r.flatten) closing)
+    (hbody : BodyOk recog k0.raw split closing (rs.map fun r => emitToks fmt flush false 0 r.flatten))
+    (hrec : ∀ j r, rs[j]? = some r → ∃ items, schemaOf schemas alt j = some items ∧
+      Conf cv fmt items r ∧ r.flatten.length ≤ 2147483647 ∧
+      (pend flush false 0 r.flatten = 0 ∨ r.flatten.length ≤ singlePrefix items)) :
+    ∃ kf, feedLines recog k0 [] [] (bodyLines split closing (rs.map fun r => emitToks fmt flush false 0 r.flatten) ++ rest) =
+        some (kf, rest) ∧ kf.finished = true ∧
+      parseRecords cv schemas alt 0 kf.records = some (rs.map (·.map (·.map (normP fmt)))) := by
+  obtain ⟨kf, h1, h2, h3⟩ := feedLines_written_kw recog k0 split closing _ rest (by
+      rcases hne with h | h
+      · left; simpa using h
+      · right; exact h) hrun (recOk_of_bodyOk hbody) hbody.slash
+  refine ⟨kf, h1, h2, ?_⟩
+  rw [h3, hk0, List.nil_append]
+  exact parseRecords_written cv schemas alt (fun r => emitToks fmt flush false 0 r.flatten)
+    (fun r => r.map (·.map (normP fmt))) rs 0 (by
+      intro j r hj
+      obtain ⟨items, hs, hc, hl, ht⟩ := hrec j r hj
+      exact ⟨items, by simpa using hs, parse_write_tokens cv fmt flush items r hc hl ht⟩)
+
 /-- the same as a statement about `parseKeywordText` (the keyword alone in its text). -/
 theorem parse_write_keyword_text (cv : Conv) (fmt : Bytes → Bytes) (flush split closing : Bool) (recog : Bytes → Bool)
     (k0 : Kw) (hk0 : k0.records = []) (hnf : k0.finished = false) (schemas : List (List Item)) (alt : Bool)
